@@ -469,39 +469,62 @@ end dwf
 section coupling_wf
 variable {α : Type} [AddCommMonoid α]
 
-def CouplingTerms.WF' (ct : CouplingTerms α) : Prop :=
-  DWF (fun (i : Int) d1 => DWF (fun (_ : String × String) d2 =>
-    DWF (fun (j : Int) (d3 : Dict String α) => i < j ∧ (Dict.keys d3).Nodup) d2) d1) ct.terms
+/-- nested dictionaries with distinct keys on every level whose entries satisfy `Q i j` -/
+def CouplingTerms.WFP (Q : Int → Int → Prop) (ct : CouplingTerms α) : Prop :=
+  DWF (fun (i : Int) d1 => DWF (fun (_ : String × String) d2 => d2 ≠ [] ∧
+    DWF (fun (j : Int) (d3 : Dict String α) => Q i j ∧ (Dict.keys d3).Nodup) d2) d1) ct.terms
+
+theorem Dict.upsert_ne_nil {κ ν : Type} [DecidableEq κ] (d : Dict κ ν) (k : κ) (f : Option ν → ν) :
+    Dict.upsert d k f ≠ [] := by
+  cases d with
+  | nil => simp [Dict.upsert]
+  | cons p d => unfold Dict.upsert; split <;> simp
+
+def CouplingTerms.WF' (ct : CouplingTerms α) : Prop := ct.WFP (fun i j => i < j)
+
+theorem CouplingTerms.WFP_mono {Q Q' : Int → Int → Prop} (hQ : ∀ i j, Q i j → Q' i j) (ct : CouplingTerms α)
+    (h : ct.WFP Q) : ct.WFP Q' :=
+  ⟨h.1, fun p hp => ⟨(h.2 p hp).1, fun q hq => ⟨((h.2 p hp).2 q hq).1, ((h.2 p hp).2 q hq).2.1, fun r hr =>
+    ⟨hQ _ _ (((h.2 p hp).2 q hq).2.2 r hr).1, (((h.2 p hp).2 q hq).2.2 r hr).2⟩⟩⟩⟩
 
 theorem CouplingTerms.WF_of_WF' (ct : CouplingTerms α) (h : ct.WF') : ct.WF where
   k0 := h.1
   k1 := fun p hp => (h.2 p hp).1
-  k2 := fun p hp q hq => ((h.2 p hp).2 q hq).1
-  k3 := fun p hp q hq r hr => (((h.2 p hp).2 q hq).2 r hr).2
-  ord := fun p hp q hq r hr => (((h.2 p hp).2 q hq).2 r hr).1
+  k2 := fun p hp q hq => ((h.2 p hp).2 q hq).2.1
+  k3 := fun p hp q hq r hr => (((h.2 p hp).2 q hq).2.2 r hr).2
+  ord := fun p hp q hq r hr => (((h.2 p hp).2 q hq).2.2 r hr).1
 
-theorem CouplingTerms.add_WF' (ct : CouplingTerms α) (h : ct.WF') (s : α) (i j : Int) (hij : i < j)
-    (opi opj str : String) : (ct.add s i j opi opj str).WF' := by
-  unfold CouplingTerms.WF' CouplingTerms.add
+theorem CouplingTerms.add_WFP (Q : Int → Int → Prop) (ct : CouplingTerms α) (h : ct.WFP Q) (s : α)
+    (i j : Int) (hij : Q i j) (opi opj str : String) : (ct.add s i j opi opj str).WFP Q := by
+  unfold CouplingTerms.WFP CouplingTerms.add
   simp only
   have l3 : ∀ d3 : Dict String α, (Dict.keys d3).Nodup → (Dict.keys (Dict.upsert d3 opj (addTo s))).Nodup :=
     fun d3 h3 => Dict.nodup_upsert d3 opj _ h3
   have l2 : ∀ d2 : Dict Int (Dict String α),
-      DWF (fun (j' : Int) (d3 : Dict String α) => i < j' ∧ (Dict.keys d3).Nodup) d2 →
-      DWF (fun (j' : Int) (d3 : Dict String α) => i < j' ∧ (Dict.keys d3).Nodup)
+      DWF (fun (j' : Int) (d3 : Dict String α) => Q i j' ∧ (Dict.keys d3).Nodup) d2 →
+      DWF (fun (j' : Int) (d3 : Dict String α) => Q i j' ∧ (Dict.keys d3).Nodup)
         (Dict.upsert d2 j (fun d3 => Dict.upsert (d3.getD []) opj (addTo s))) := by
     intro d2 h2
     exact DWF_upsert _ d2 j _ h2 (fun v hv => ⟨hv.1, l3 v hv.2⟩) ⟨hij, l3 [] (by simp [Dict.keys])⟩
   have l1 : ∀ d1 : Dict (String × String) (Dict Int (Dict String α)),
-      DWF (fun (_ : String × String) d2 => DWF (fun (j' : Int) (d3 : Dict String α) => i < j' ∧ (Dict.keys d3).Nodup) d2) d1 →
-      DWF (fun (_ : String × String) d2 => DWF (fun (j' : Int) (d3 : Dict String α) => i < j' ∧ (Dict.keys d3).Nodup) d2)
+      DWF (fun (_ : String × String) d2 => d2 ≠ [] ∧ DWF (fun (j' : Int) (d3 : Dict String α) => Q i j' ∧ (Dict.keys d3).Nodup) d2) d1 →
+      DWF (fun (_ : String × String) d2 => d2 ≠ [] ∧ DWF (fun (j' : Int) (d3 : Dict String α) => Q i j' ∧ (Dict.keys d3).Nodup) d2)
         (Dict.upsert d1 (opi, str) (fun d2 => Dict.upsert (d2.getD []) j
           (fun d3 => Dict.upsert (d3.getD []) opj (addTo s)))) := by
     intro d1 h1
-    exact DWF_upsert _ d1 (opi, str) _ h1 (fun v hv => l2 v hv) (l2 [] (DWF_nil _))
+    exact DWF_upsert _ d1 (opi, str) _ h1 (fun v hv => ⟨Dict.upsert_ne_nil _ _ _, l2 v hv.2⟩)
+      ⟨Dict.upsert_ne_nil _ _ _, l2 [] (DWF_nil _)⟩
   exact DWF_upsert _ ct.terms i _ h (fun v hv => l1 v hv) (l1 [] (DWF_nil _))
 
-theorem CouplingTerms.empty_WF' (L : Nat) : (CouplingTerms.empty L : CouplingTerms α).WF' := DWF_nil _
+theorem CouplingTerms.add_WF' (ct : CouplingTerms α) (h : ct.WF') (s : α) (i j : Int) (hij : i < j)
+    (opi opj str : String) : (ct.add s i j opi opj str).WF' :=
+  CouplingTerms.add_WFP _ ct h s i j hij opi opj str
+
+theorem CouplingTerms.empty_WFP (Q : Int → Int → Prop) (L : Nat) :
+    (CouplingTerms.empty L : CouplingTerms α).WFP Q := DWF_nil _
+
+theorem CouplingTerms.empty_WF' (L : Nat) : (CouplingTerms.empty L : CouplingTerms α).WF' :=
+  CouplingTerms.empty_WFP _ L
 
 end coupling_wf
 end TenpyModel.Ops
